@@ -339,6 +339,129 @@ theorem replacesFresh_mono (t : List (Effect α)) (st st' : Stale)
     | mkdir p => exact ih _ _ (hstep (.mkdir p)) (by simpa [replacesFresh] using h)
     | other p => exact ih _ _ (hstep (.other p)) (by simpa [replacesFresh] using h)
 
+/-! ### repair of torn files by the follow-up run -/
+
+def AFS.describes (a : AFS) (fs : FS α) : Prop := ∀ p, (a p).describes (fs p)
+
+theorem AFS.describes_set (a : AFS) (fs : FS α) (h : a.describes fs) (p : Path) (v : Abs) (s : FileSt α)
+    (hv : v.describes s) : (a.set p v).describes (fs.set p s) := by
+  intro q
+  by_cases hq : q = p
+  · simp [AFS.set, FS.set, hq, hv]
+  · simpa [AFS.set, FS.set, hq] using h q
+
+theorem absStep_sound (a : AFS) (fs : FS α) (h : a.describes fs) (e : Effect α) :
+    (absStep a e).describes (step fs e) := by
+  cases e with
+  | openW p => exact AFS.describes_set a fs h p .open_ .torn rfl
+  | openA p => simpa [absStep, step] using h
+  | flush p => simpa [absStep, step] using h
+  | fsync p => simpa [absStep, step] using h
+  | other p => simpa [absStep, step] using h
+  | unlink p => exact AFS.describes_set a fs h p .gone .absent rfl
+  | rmdir p => exact AFS.describes_set a fs h p .gone .absent rfl
+  | write p =>
+    have hp := h p
+    cases ha : a p <;> cases hf : fs p <;> simp [Abs.describes, ha, hf] at hp <;>
+      simp only [absStep, step, ha, hf] <;>
+      first
+        | exact h
+        | exact AFS.describes_set a fs h p .open_ .torn rfl
+        | (intro q; by_cases hq : q = p
+           · subst hq; simp [FS.set, ha, Abs.describes]
+           · simpa [FS.set, hq] using h q)
+  | close p c =>
+    have hp := h p
+    cases ha : a p <;> cases hf : fs p <;> simp [Abs.describes, ha, hf] at hp <;>
+      simp only [absStep, step, ha, hf] <;>
+      first
+        | exact h
+        | exact AFS.describes_set a fs h p .good (.ok c) (Or.inl ⟨c, rfl⟩)
+        | (intro q; by_cases hq : q = p
+           · subst hq; simp [FS.set, ha, Abs.describes]
+           · simpa [FS.set, hq] using h q)
+  | mkdir p =>
+    have hp := h p
+    cases ha : a p <;> cases hf : fs p <;> simp [Abs.describes, ha, hf] at hp <;>
+      simp only [absStep, step, ha, hf] <;>
+      first
+        | exact h
+        | exact AFS.describes_set a fs h p .good .dir (Or.inr rfl)
+        | (intro q; by_cases hq : q = p
+           · subst hq; simp [FS.set, ha, Abs.describes]
+           · simpa [FS.set, hq] using h q)
+  | copyfile s d =>
+    have hs := h s
+    cases ha : a s <;> cases hf : fs s <;> simp [Abs.describes, ha, hf] at hs <;>
+      simp only [absStep, step, ha, hf] <;>
+      first
+        | exact h
+        | exact AFS.describes_set a fs h d .unk _ trivial
+        | exact AFS.describes_set a fs h d .open_ .torn rfl
+        | exact AFS.describes_set a fs h d .good (.ok _) (Or.inl ⟨_, rfl⟩)
+        | exact AFS.describes_set a fs h d .good .dir (Or.inr rfl)
+        | (intro q; by_cases hq : q = d
+           · subst hq; simp [AFS.set, Abs.describes]
+           · simpa [AFS.set, hq] using h q)
+  | replace s d =>
+    have hs := h s
+    cases ha : a s <;> cases hf : fs s <;> simp [Abs.describes, ha, hf] at hs <;>
+      simp only [absStep, step, ha, hf] <;>
+      first
+        | exact h
+        | exact AFS.describes_set _ _ (AFS.describes_set a fs h d .unk _ trivial) s .unk _ trivial
+        | (intro q; by_cases hq : q = s
+           · subst hq; simp [AFS.set, Abs.describes]
+           · by_cases hq2 : q = d
+             · subst hq2; simp [AFS.set, hq, Abs.describes]
+             · simpa [AFS.set, hq, hq2] using h q)
+        | exact AFS.describes_set _ _ (AFS.describes_set a fs h d .open_ .torn rfl) s .gone .absent rfl
+        | exact AFS.describes_set _ _ (AFS.describes_set a fs h d .good (.ok _) (Or.inl ⟨_, rfl⟩)) s .gone .absent rfl
+        | exact AFS.describes_set _ _ (AFS.describes_set a fs h d .good .dir (Or.inr rfl)) s .gone .absent rfl
+
+theorem absRun_sound (a : AFS) (fs : FS α) (h : a.describes fs) (t : List (Effect α)) :
+    (absRun a t).describes (run fs t) := by
+  induction t generalizing a fs with
+  | nil => simpa [absRun, run] using h
+  | cons e es ih => exact ih _ _ (absStep_sound a fs h e)
+
+/-- soundness of `repairs`: whatever the killed command left (within `a0`), after the follow-up run the file is
+    not torn -/
+theorem repairs_sound (a0 : AFS) (p : Path) (rt : List (Effect α)) (h : repairs a0 p rt = true) (fs : FS α)
+    (h0 : a0.describes fs) : (run fs rt) p ≠ .torn := by
+  have hd := absRun_sound a0 fs h0 rt p
+  unfold repairs at h
+  cases ha : absRun a0 rt p <;> simp [ha] at h <;> simp [Abs.describes, ha] at hd
+  · rcases hd with ⟨c, hc⟩ | hc <;> simp [hc]
+  · simp [hd]
+
+theorem AFS.top_describes (fs : FS α) : AFS.top.describes fs := fun _ => trivial
+
+def FileSt.isWhole : FileSt α → Bool
+  | .ok _ => true
+  | .dir => true
+  | _ => false
+
+/-- what the two static disciplines establish about a scenario's crash states: a file that exists beforehand, is
+    never opened/written/copied onto and never unlinked or renamed away is whole at every crash point -/
+def Scenario.known (sc : Scenario) : AFS := fun p =>
+  if neverTornCheck p sc.fs0 sc.trace && alwaysPresentCheck p sc.trace && (sc.fs0 p).isWhole then .good else .unk
+
+theorem Scenario.known_describes (sc : Scenario) :
+    ∀ s ∈ crashStates sc.fs0 sc.trace, sc.known.describes s := by
+  intro s hs p
+  unfold Scenario.known
+  split
+  · rename_i h
+    simp only [Bool.and_eq_true] at h
+    obtain ⟨⟨h1, h2⟩, h3⟩ := h
+    have w0 : sc.fs0 p ≠ .torn ∧ sc.fs0 p ≠ .absent := by
+      cases hf : sc.fs0 p <;> simp [hf, FileSt.isWhole] at h3 <;> simp
+    have nt := neverTornCheck_sound p sc.fs0 sc.trace h1 w0.1 s hs
+    have na := alwaysPresentCheck_sound p sc.fs0 sc.trace h2 w0.2 s hs
+    cases hsp : s p <;> simp_all [Abs.describes]
+  · trivial
+
 /-! ### the readers -/
 
 theorem recover_internal_iff (fs : FS α) : recover fs = .internalError ↔ fs pCmdline = .torn := by
